@@ -31,9 +31,9 @@ CLAIMS = {
         "technique": "Lean 4 theorem (build_trie mirror = specification, induction) + root differential against the executed Lean specification",
     },
     "C05": {
-        "text": "T5.1 completeness and T5.2 truthfulness of the specified path proof proveSpec for every canonical set and every key (present/absent, any divergence depth), kernel-checked; T5.5 (bitbox): the mirrored ProbeSequence / lookup / allocate_bucket / tombstone functions are total within 2n+2 steps (period of the triangular sequence), a lookup answers exactly 'stored at b' / 'stored nowhere' in every table reachable from empty by inserts and removes, stale tombstone labels are never found; Session::prove of the real store must return exactly proveSpec's terminal and siblings (byte-for-byte) for generated query keys on plain and overlay sessions, cold and warm, and verify + confirm with the real verifier.",
+        "text": "T5.1 completeness and T5.2 truthfulness of the specified path proof proveSpec for every canonical set and every key (present/absent, any divergence depth), kernel-checked; T5.5 on accepted images: whenever the image monitor accepts a real ht file (wfTable), the decoded table satisfies the table invariant, so the modelled lookup of page p answers bucket b iff b is full, tagged and labelled p (every stored merkle page is found, nothing else is); T5.5 (bitbox): the mirrored ProbeSequence / lookup / allocate_bucket / tombstone functions are total within 2n+2 steps (period of the triangular sequence), a lookup answers exactly 'stored at b' / 'stored nowhere' in every table reachable from empty by inserts and removes, stale tombstone labels are never found; Session::prove of the real store must return exactly proveSpec's terminal and siblings (byte-for-byte) for generated query keys on plain and overlay sessions, cold and warm, and verify + confirm with the real verifier.",
         "design_ref": "§4 C05",
-        "note": "Trusted: Lean kernel; Hasher.Sound; seek not modelled (tied by proof equality); bitbox probing IS modelled (T5.5 family) but tied to the code only through wfTable / probeReaches on real files and the extracted constants, not by a step-by-step differential.",
+        "note": "Trusted: Lean kernel; Hasher.Sound; seek not modelled (tied by proof equality); bitbox probing is modelled (T5.5 family) and tied to the code step by step: alloc-probe (real ProbeSequence::new/next, allocate_bucket, hash_raw_page_id) and alloc-lookup (real Store::load_page on dense tiny tables) against the model through cfg(nomt_verif) hooks.",
         "technique": "Lean 4 theorem (specified proof verifies and is truthful, for all sets and keys) + exact proof-object differential",
     },
     "C09": {
@@ -91,9 +91,9 @@ CLAIMS = {
         "technique": "Lean 4 theorems (specified proofs verify/attest; update replay = new root) + canonical witness equality differential + real-verifier replay oracle",
     },
     "C19": {
-        "text": "Ownership monitor defined in Lean (wfDetail / claim): every page of ln and bbn below the allocation frontier is claimed for exactly one role (leaf, branch, overflow page, free-list page, free page); T19 theorems: a successful claim is the first claim of an in-range page, a claimed page can never be claimed again (so an accepted image has no page both free and in use or used twice). Free-list / allocator model (mirror of pop, discard, preallocate, push_and_encode, commit, allocate, finish): T19.1 allocate hands out only pages free at the start of the sync or beyond the frontier; T19.2 tracked and live pages partition [1,bump) before and after every sync (iterable); T19.3 the frontier moves only when the old list was exhausted. Bitbox table model: occupancy counter = number of stored pages (T19_occupied_is_stored_pages); meta-byte constants extracted from the source are pairwise distinct. The monitor runs on real directories after every commit / rollback / reopen of generated histories and counts unclaimed (leaked) pages, which must be 0; the API's reported occupancy must equal the full buckets found by the decoder and the pages the specification requires; identical fill/empty cycles must not move the frontier after cycle 4. Re-found and repaired F10 (overflow pages leaked by LeafUpdater::keep_up_to).",
+        "text": "Ownership monitor defined in Lean (wfDetail / claim): every page of ln and bbn below the allocation frontier is claimed for exactly one role (leaf, branch, overflow page, free-list page, free page); T19 theorems: a successful claim is the first claim of an in-range page, a claimed page can never be claimed again (so an accepted image has no page both free and in use or used twice). Free-list / allocator model (mirror of pop, discard, preallocate, push_and_encode, commit, allocate, finish): T19.1 allocate hands out only pages free at the start of the sync or beyond the frontier; T19.2 tracked and live pages partition [1,bump) before and after every sync (iterable); T19.3 the frontier moves only when the old list was exhausted; UNCONDITIONALLY for every capacity >= 2 on well-shaped lists: T19.5 finish never reaches a panic site and yields a well-shaped list, T19.2u / T19.3u conservation and frontier laws, T19.6 every state reachable from the empty store by any sequence of syncs is well-shaped, partitioned and can sync again, T19.7 the mirrored get_nth_pop index arithmetic (fragmented and plain) equals the pop sequence. Bitbox table model: occupancy counter = number of stored pages (T19_occupied_is_stored_pages); meta-byte constants extracted from the source are pairwise distinct. The monitor runs on real directories after every commit / rollback / reopen of generated histories and counts unclaimed (leaked) pages, which must be 0; the API's reported occupancy must equal the full buckets found by the decoder and the pages the specification requires; identical fill/empty cycles must not move the frontier after cycle 4. Re-found and repaired F10 (overflow pages leaked by LeafUpdater::keep_up_to).",
         "design_ref": "§4 C19",
-        "note": "Trusted: Lean kernel; decoders hand-written from the layouts (tied by the image run on real directories); the free-list theorems T19.1-T19.3 are conditional on the modelled commit not reaching a panic site (finish = some), which is kernel-checked exhaustively only for capacities 2-4 (T19.4, decide +kernel); get_nth_pop index arithmetic modelled by its specification.",
+        "note": "Trusted: Lean kernel; decoders hand-written from the layouts (tied by the image run on real directories); u32 / usize overflow, file growth (max_bump / grow) and FreeList::read's trust in the shape of what it reads are not modelled; the free-list model is tied to the real FreeList by the alloc-freelist differential (every sync one protocol line).",
         "technique": "Lean 4 theorems on the page-ownership monitor + the monitor evaluated by the Lean driver on real directory images + frontier cycles",
     },
     "C07": {
@@ -109,7 +109,7 @@ CLAIMS = {
         "technique": "Lean 4 theorems (invariant over all interleavings of the lock protocol) + thread/process races, directory fingerprints and strace on the real code",
     },
     "C17": {
-        "text": "checkPlacement (Lean) decides, from the independently decoded pre-image and the ordered I/O events of an operation, that nothing the previous state references is overwritten, truncated or unlinked before the meta page is written. T17.1/T17.1b: an accepted ln / bbn page write targets a page beyond the old frontier or one the old state does not use as node / overflow / free-list page; T17.2 any hash-table write before the switch-over is rejected; T17.3 any unlink is rejected; T17.4 every event the monitor accepts abstracts to an effect satisfying EvPre / AllowedPre of the abstract disk model. This is the page-write clause of the hypothesis of the crash theorem (C04 EvPre) decided on real traces. The monitor runs on the pre-image + trace of every operation of generated histories.",
+        "text": "checkPlacement (Lean) decides, from the independently decoded pre-image and the ordered I/O events of an operation, that nothing the previous state references is overwritten, truncated or unlinked before the meta page is written. T17.1/T17.1b: an accepted ln / bbn page write targets a page beyond the old frontier or one the old state does not use as node / overflow / free-list page; T17.2 any hash-table write before the switch-over is rejected; T17.3 any unlink is rejected; T17.4 every event the monitor accepts abstracts to an effect satisfying EvPre / AllowedPre of the abstract disk model; T17.5 (allocator clause) every free-list page a sync writes goes to a page that was FREE in the previous state or lies beyond its frontier - never a page holding the previous free list, a live page, or a page handed to the tree in the same sync (false of the code before repair F18; the real FreeList is run against this model and a placement oracle on every run). This is the page-write clause of the hypothesis of the crash theorem (C04 EvPre) decided on real traces. The monitor runs on the pre-image + trace of every operation of generated histories.",
         "design_ref": "§4 C03/C04/C17",
         "note": "Trusted: Lean kernel; decoders hand-written (validated by C16's run); the hook's completeness (every mutating call site instrumented); T17.4 links monitor acceptance to the page-write clause EvPre of the crash theorem; the WAL-seqn, log-append and flush clauses need contents / completion order the trace does not carry and are covered by the crash enumeration.",
         "technique": "Lean 4 theorems (soundness of the placement monitor) + the monitor evaluated by the Lean driver on real pre-images and real I/O traces",
@@ -121,9 +121,9 @@ CLAIMS = {
         "technique": "Lean 4 theorems (invariant over all interleavings of the lock-protocol LTS) + threaded stress with stamp / winner-chain oracles under a watchdog",
     },
     "C16": {
-        "text": "Byte-level decoders of every on-disk format written in Lean from the layouts, independent of nomt's read path (meta, leaf, branch with prefix compression, overflow cells/pages, free lists, hash-table meta bytes and buckets with seeded XXH3-64 probe positions, merkle pages and labels, WAL, rollback segments), plus wfImage / wfTable / checkMerkle. Kernel-checked: decoder/encoder round trips (meta, overflow cell, free-list page, record header); T16.1 an accepted image's abstraction has strictly increasing keys, no key twice, every key in exactly one leaf; T16.const: the layout constants the decoders use ARE the ones extracted from the Rust sources on every run (tools/gen_constants.py -> Generated/Constants.lean), the manifest fields tile [0,64) at the offsets encode_to writes, an overflow cell fits a leaf, the last page level is always elided; T16.lookup routing by separators + leaf search = lookup in the abstraction (T1.6). The Lean driver decodes the REAL directory after every commit / rollback / reopen of generated histories and requires: well-formed, abstraction = committed map (value length + Blake3 of every value), every reachable node of every stored merkle page = nodeAt, elision rule, table well-formed. Found F13/F14 (branch separators corrupted by mis-sized bitwise_memcpy sources: committed keys read back absent / commit panic), both repaired.",
+        "text": "Byte-level decoders of every on-disk format written in Lean from the layouts, independent of nomt's read path (meta, leaf, branch with prefix compression, overflow cells/pages, free lists, hash-table meta bytes and buckets with seeded XXH3-64 probe positions, merkle pages and labels, WAL, rollback segments), plus wfImage / wfTable / checkMerkle. Kernel-checked: decoder/encoder round trips (meta, overflow cell, free-list page, record header); T16.1 an accepted image's abstraction has strictly increasing keys, no key twice, every key in exactly one leaf; T16.const: the layout constants the decoders use ARE the ones extracted from the Rust sources on every run (tools/gen_constants.py -> Generated/Constants.lean), the manifest fields tile [0,64) at the offsets encode_to writes, an overflow cell fits a leaf, the last page level is always elided; T16.rt: leaf node, branch node (with prefix compression) and page id encoders written from the builders round-trip through the decoders under explicit decidable guards (leafOK, branchOK; page ids to depth 41 resp. 42 without overflow); T16.lookup routing by separators + leaf search = lookup in the abstraction (T1.6). The Lean driver decodes the REAL directory after every commit / rollback / reopen of generated histories and requires: well-formed, abstraction = committed map (value length + Blake3 of every value), every reachable node of every stored merkle page = nodeAt, elision rule, table well-formed. Found F13/F14 (branch separators corrupted by mis-sized bitwise_memcpy sources: committed keys read back absent / commit panic), both repaired.",
         "design_ref": "§4 C16",
-        "note": "Trusted: Lean kernel; decoders are hand-written (tied by decoding real directories); leaf/branch encoder round trips and the ownership walk as a whole are not theorems; crash images are covered by C03/C04 through the API, not by the decoder.",
+        "note": "Trusted: Lean kernel; decoders are hand-written (tied by decoding real directories); push_chunk of the node builders is not mirrored; the ownership walk as a whole is not a theorem; recovered crash images ARE decoded (the crash enumeration hands every recovered directory to the monitor).",
         "technique": "Lean 4 theorems on the image decoder (sortedness, single-leaf, lookup = abstraction, codec round trips) + the decoder/monitor evaluated by the Lean driver on real directories",
     },
 }
